@@ -166,7 +166,7 @@ def run(prog, rep, tier):
                 return True
             return False
         a0 = b.term.args[0]
-        ok = a0.place is not None and must_derive(body, a0.place[0], is_can2) and bool(can)
+        ok = a0.place is not None and must_derive_ip(prog, body, a0.place[0], is_can2) and bool(can)
         rep.ob('R16.3', ok, 'R16.3|%s|create_file-dir-canonical' % body.nkey, 'output directory handed to create_file is fs::canonicalize(..)' if ok else 'create_file called with a directory that is not canonicalized', body.loc(b.idx))
     # FileWriter aggregates
     fws = []
